@@ -898,6 +898,9 @@ class Envelope:
         """
         # Will not attempt to contract past vector
         # final = ExpansionLevel.Vector
+        if self.expansion_level is not ExpansionLevel.Matrix:
+            # Nothing to contract
+            return
         assert isinstance(self.state, jnp.ndarray)
         assert self.state.shape == (self.dimensions, self.dimensions)
         state_squared = jnp.matmul(self.state, self.state)
